@@ -181,10 +181,18 @@ theorem C11.output_independent_of_perm_fails_at_libs :
     (`C11.compile_preserves_clean`).  The masked pieces (`returned_blocks`, `_current_frame`), the caches, the counter
     and the stale prefix counters may differ arbitrarily. -/
 theorem C11.output_independent_of_history (cfg : Cfg) (perm : List Nat → List Nat) (d : Design) (g : G)
-    (h : Clean g) (ho : Old g.owner) (hf : CacheSound g.fnCache) (ht : CacheSound g.tyCache) :
+    (h : Clean g) (ho : Old g.owner) (hf : CacheSound g.fnCache) (ht : CacheSound g.tyCache)
+    (hr : g.reserved = G.init.reserved) :
     (compile cfg perm d g).1 = (compile cfg perm d G.init).1 := by
-  obtain ⟨hs, hn⟩ := sim_init h ho hf ht
+  obtain ⟨hs, hn⟩ := sim_init h ho hf ht hr
   exact run_result_eq cfg perm d [] 0 g G.init [] hs hn
+
+/-- the class-level containers of the back end (`ModuleScope._vhdl_reserved`, `_additional_reserved`) have the
+    same content after every compilation, whatever options (`additional_reserved_names`) it was given and wherever
+    it crashed: the names of one compilation never stay reserved for the next -/
+theorem C11.reserved_names_unchanged (cfg : Cfg) (perm : List Nat → List Nat) (d : Design) (g : G) :
+    (compile cfg perm d g).2.reserved = g.reserved :=
+  reserved_run cfg perm d [] 0 g []
 
 /-- the hypothesis on the prefix owner holds after every compilation, whatever happened in it -/
 theorem C11.owner_old_after_compile (cfg : Cfg) (perm : List Nat → List Nat) (d : Design) (g : G) :
@@ -205,7 +213,7 @@ theorem C11.rejected_design_is_harmless (perm : List Nat → List Nat) (r d : De
     (compile Cfg.fixed perm d (compile Cfg.fixed perm r G.init).2).1 = (compile Cfg.fixed perm d G.init).1 :=
   C11.output_independent_of_history _ _ _ _
     (C11.compile_preserves_clean perm r G.init ⟨fun _ _ => rfl, rfl, rfl⟩)
-    (C11.owner_old_after_compile _ _ _ _) hf ht
+    (C11.owner_old_after_compile _ _ _ _) hf ht (C11.reserved_names_unchanged _ _ _ _)
 
 /-- caches stay sound through every compilation (accepted, rejected, any crash point) -/
 theorem C11.caches_sound_after_compile (cfg : Cfg) (perm : List Nat → List Nat) (d : Design) (g : G)
@@ -219,17 +227,18 @@ theorem C11.output_independent_of_any_history (perm : List Nat → List Nat) (hi
       = (compile Cfg.fixed perm d G.init).1 := by
   have key : ∀ (hist : List Design) (g : G), Clean g → Old g.owner → CachesSound g →
       let g' := hist.foldl (fun g r => (compile Cfg.fixed perm r g).2) g
-      Clean g' ∧ Old g'.owner ∧ CachesSound g' := by
+      Clean g' ∧ Old g'.owner ∧ CachesSound g' ∧ g'.reserved = g.reserved := by
     intro hist
     induction hist with
-    | nil => intro g h1 h2 h3; exact ⟨h1, h2, h3⟩
+    | nil => intro g h1 h2 h3; exact ⟨h1, h2, h3, rfl⟩
     | cons r rs ih =>
       intro g h1 _ h3
-      exact ih _ (C11.compile_preserves_clean perm r g h1) (C11.owner_old_after_compile _ _ _ _)
+      obtain ⟨a, b, c, d⟩ := ih _ (C11.compile_preserves_clean perm r g h1) (C11.owner_old_after_compile _ _ _ _)
         (C11.caches_sound_after_compile _ _ _ _ h3)
-  obtain ⟨h1, h2, h3⟩ := key hist G.init ⟨fun _ _ => rfl, rfl, rfl⟩ (fun p hp => by simp [G.init] at hp)
+      exact ⟨a, b, c, d.trans (C11.reserved_names_unchanged _ _ _ _)⟩
+  obtain ⟨h1, h2, h3, h4⟩ := key hist G.init ⟨fun _ _ => rfl, rfl, rfl⟩ (fun p hp => by simp [G.init] at hp)
     ⟨fun e he => by simp [G.init] at he, fun e he => by simp [G.init] at he⟩
-  exact C11.output_independent_of_history _ _ _ _ h1 h2 h3.1 h3.2
+  exact C11.output_independent_of_history _ _ _ _ h1 h2 h3.1 h3.2 h4
 
 /-- non-vacuity / contrast: on the pinned tree the same statement fails for a two-element history -/
 theorem C11.output_independent_of_any_history_fails_on_pinned_tree :
@@ -257,3 +266,20 @@ theorem C11.dynamic_ports_recompile (perm : List Nat → List Nat) (k : Nat) :
       = .ok [[9, 7, 1], [9, 7, 2]] := by
   rw [C11.output_independent_of_any_history]
   rfl
+
+/-! ## compiler options: `additional_reserved_names` -/
+
+namespace CohdlVerif.C11
+/-- a compilation given the option `additional_reserved_names = {5}` whose design declares the names 5 and 6 -/
+def reservingDesign : Design :=
+  [.enter .conv [], .enter .arch [8], .exit, .exit, .enter .scope [5], .act (.declare 5), .act (.declare 6), .exit]
+/-- a later design that uses the name 5 WITHOUT the option -/
+def plainDesign : Design :=
+  [.enter .conv [], .enter .arch [9], .exit, .exit, .enter .scope [], .act (.declare 5), .exit]
+end CohdlVerif.C11
+
+/-- the option acts on the compilation it is given to (5 is renamed, 6 is not) and on no later one -/
+theorem C11.reserved_option_is_local :
+    (compile Cfg.fixed id reservingDesign G.init).1 = .ok [[10, 5, 1], [10, 6, 0]] ∧
+    (compile Cfg.fixed id plainDesign (compile Cfg.fixed id reservingDesign G.init).2).1 = .ok [[10, 5, 0]] := by
+  decide
